@@ -136,8 +136,8 @@ func (w *World) exec(i int, s *Step) {
 				p.OpenOverride = &o
 			}
 			p.Send(EncodeOpen(p.openSpec()))
-			if p.state == psIdle {
-				p.state = psOpenSent
+			if p.state == psIdle || p.state == psOpenSent {
+				p.state = psOpenConfirm // our OPEN is out; the DUT's KEEPALIVE completes the handshake
 			}
 		}
 	case "announce", "withdraw":
